@@ -303,6 +303,31 @@ inline void Sweep::decls_and_regions()
       simple("Udt::declare_secondary_template", cls->declare_secondary_template(*n0, fa), Category_code::Template, n0, &fa);
       simple("Udt::declare_alias", cls->declare_alias(*n1, L.int_type()), Category_code::Alias, n1, &L.typename_type());
       add_node("class with members", cls, Category_code::Class, [cls](Ck& c) { c.eq("members.size", (long long)cls->members().size(), 8); c.eq("scope.size", (long long)cls->scope().size(), 8); }); }
+   // aliases of every kind of entity, through every entry point, the aliased node handed over under each static type the entry
+   // point accepts: an alias takes its type from what it aliases (class, union, enum, namespace for those entities; typename for
+   // built-in and compound types; the expression's type otherwise)
+   {  auto& greg = *unit.global_region();
+      auto* holder = lex.make_namespace(greg); auto* hcls = lex.make_class(greg); auto* hreg = greg.make_subregion();
+      impl::Class* k = lex.make_class(greg); impl::Union* u = lex.make_union(greg); impl::Enum* e = lex.make_enum(greg, Enum::Kind::Scoped); impl::Namespace* ns = lex.make_namespace(greg); impl::Closure* cl = lex.make_closure(greg);
+      const Type* aliased[] = { k, u, e, ns, cl, &L.int_type(), &lex.get_pointer(L.char_type()), &lex.get_qualified(Qualifiers(1), *k) };
+      const char* what[] = { "class", "union", "enum", "namespace", "closure", "built-in type", "pointer type", "qualified class" };
+      int i = 0;
+      for (const Type* t : aliased) {
+         const Type* want = &t->type();
+         auto rec = [&](const std::string& f, const Alias* d, const Name* nm) {
+            add_node(f + "(" + what[i] + ")", d, Category_code::Alias, [d, nm, t, want](Ck& c) { c.same("name", &d->name(), nm); c.type_is(*d, *want, "alias: its initializer's type"); c.opt("initializer", d->initializer(), static_cast<const Expr*>(t)); }); };
+         const Name* nm = P.idents[std::size_t(i) % 10];
+         rec("Scope::make_alias[as Expr]", holder->body.scope.make_alias(*nm, static_cast<const Expr&>(*t)), nm);
+         rec("Scope::make_alias[as Type]", hreg->scope.make_alias(*nm, *t), nm);
+         rec("Region::declare_alias", holder->body.declare_alias(*nm, *t), nm);
+         rec("Udt::declare_alias", hcls->declare_alias(*nm, *t), nm);
+         ++i;
+      }
+      // and with the implementation object's own static type
+      { auto* d = hreg->scope.make_alias(*P.idents[8], *k); add_node("Scope::make_alias[as impl::Class]", d, Category_code::Alias, [d, k](Ck& c) { c.type_is(*d, k->type(), "alias: its initializer's type"); }); }
+      { auto* d = hreg->scope.make_alias(*P.idents[9], *ns); add_node("Scope::make_alias[as impl::Namespace]", d, Category_code::Alias, [d, ns](Ck& c) { c.type_is(*d, ns->type(), "alias: its initializer's type"); }); }
+      { auto* d = hreg->scope.make_alias(*P.idents[7], *e); add_node("Scope::make_alias[as impl::Enum]", d, Category_code::Alias, [d, e](Ck& c) { c.type_is(*d, e->type(), "alias: its initializer's type"); }); }
+   }
    // parameters with and without default value
    {  auto* m = lex.make_mapping(*reg, Mapping_level{ 3 });
       for (int st = 0; st < 2; ++st) {
